@@ -19,7 +19,7 @@ var c01Lines = []string{
 	"", "a", "ab", "ba", "a b", "A", "é", "\xff", "b",
 	`x=5 y=a`, `x=7 y=b d=1s sz=1KB ip=10.0.0.1`, `x=abc`, `y=a`, `d=1h30m x=5.5`, `sz=2MiB y=b`, `ip=10.0.0.9 x=10`, `ip=notanip d=soon sz=big`, `x=-1 y="a b"`,
 	`{"x":5,"y":"a"}`, `{"x":"7","y":"b","d":"1s"}`, `{"x":"abc"}`, `{"y":"a"}`, `{"x":5.5,"sz":"1KB","ip":"10.0.0.1"}`, `{"x":6,"y":"ab","ip":"10.0.0.77"}`,
-	"\x1b[31ma\x1b[0m", `{"_entry":"ab","y":"a"}`,
+	"\x1b[31ma\x1b[0m", `{"_entry":"ab","y":"a"}`, `{"_entry":"A","y":"b"}`, `{"_entry":"x=5 y=a","b":"\u0061"}`,
 	"from 10.0.0.1 ok", "10.0.0.1 and 10.0.0.9", "peer 192.168.1.7", "v6 ::1 end", "no ip here", "10.0.0.9",
 }
 
@@ -122,7 +122,12 @@ func c01Stages() []refmodel.Stage {
 }
 
 func c01Selectors() [][]refmodel.Matcher {
-	out := [][]refmodel.Matcher{nil}
+	out := [][]refmodel.Matcher{
+		nil,
+		{{Label: "app", Op: "=", Value: "x"}},
+		{{Label: "app", Op: "=~", Value: "x|y"}, {Label: "env", Op: "!=", Value: "q"}},
+		{{Label: "env", Op: "!~", Value: "p"}, {Label: "msg", Op: "=~", Value: ".+"}},
+	}
 	var singles []refmodel.Matcher
 	for _, l := range []string{"app", "env", "msg", "missing"} {
 		for _, op := range []string{"=", "!=", "=~", "!~"} {
@@ -266,7 +271,7 @@ func c01Run(r *vkit.Run) {
 	}
 	r.GlobalState("selectors")
 	// (ii) every pipeline of length 1 and 2 (thorough: 3 on a lattice) under three selectors
-	sels := []int{0, 1, 40}
+	sels := []int{0, 1, 2, 3}
 	for _, si := range sels {
 		for a := range c01A {
 			visit(c01Input{Data: "all", Sel: si, Stages: []int{a}}, true)
@@ -274,7 +279,8 @@ func c01Run(r *vkit.Run) {
 	}
 	for a := range c01A {
 		for b := range c01A {
-			visit(c01Input{Data: "all", Sel: sels[(a+b)%3], Stages: []int{a, b}}, false)
+			visit(c01Input{Data: "all", Sel: 0, Stages: []int{a, b}}, false)
+			visit(c01Input{Data: "all", Sel: sels[1+(a+b)%3], Stages: []int{a, b}}, false)
 		}
 	}
 	r.GlobalState("pipelines<=2")
@@ -282,7 +288,7 @@ func c01Run(r *vkit.Run) {
 		for a := range c01A {
 			for b := range c01A {
 				for c := (a + b) % 5; c < len(c01A); c += 5 {
-					visit(c01Input{Data: "all", Sel: sels[(a+b+c)%3], Stages: []int{a, b, c}}, false)
+					visit(c01Input{Data: "all", Sel: sels[(a+b+c)%4], Stages: []int{a, b, c}}, false)
 				}
 			}
 		}
